@@ -40,6 +40,9 @@ var solvers = []solverDef{
 }
 
 // solveOne races the solvers on one query; the first definitive answer wins.
+// qfSatFinal is set during invariant inference (see houdini.go).
+var qfSatFinal bool
+
 func solveOne(dir, name, query string, timeoutS, seed int, which []int) *SolveResult {
 	file := filepath.Join(dir, name+".smt2")
 	if err := os.WriteFile(file, []byte(query), 0o644); err != nil {
@@ -53,6 +56,11 @@ func solveOne(dir, name, query string, timeoutS, seed int, which []int) *SolveRe
 			r := solveOne(dir, name+".qf", qf, 2, seed, which[:1])
 			if r.Status == "unsat" {
 				r.Backend += " (quantifier-free)"
+				return r
+			}
+			if qfSatFinal && r.Status == "sat" {
+				// invariant inference only: a candidate refuted without the
+				// quantified axioms is dropped at once (dropping is always sound)
 				return r
 			}
 		}
@@ -214,39 +222,94 @@ var slenTerm = regexp.MustCompile(`\(slen ([^\s()]+)\)`)
 // quantifierFree drops every assertion that contains a quantifier and adds
 // (>= (slen x) 0) for the atomic string terms whose length is mentioned.
 func quantifierFree(q string) string {
+	// Every quantified subterm is replaced by a fresh Boolean constant (the same
+	// constant for identical subterms).  The result is valid only if the
+	// original is: the constants generalise the subterms they stand for.
 	lines := strings.Split(q, "\n")
 	var out []string
-	dropped := false
+	consts := map[string]string{}
+	var order []string
+	replaced := false
 	for _, l := range lines {
-		if strings.HasPrefix(l, "(assert") && (strings.Contains(l, "(forall ") || strings.Contains(l, "(exists ")) {
-			// the goal itself may be quantified: keep it (last assert before check-sat is the negated goal)
-			dropped = true
-			continue
-		}
 		if strings.HasPrefix(l, "(get-value") {
 			continue
 		}
+		if strings.HasPrefix(l, "(assert") && (strings.Contains(l, "(forall ") || strings.Contains(l, "(exists ")) {
+			var b strings.Builder
+			for k := 0; k < len(l); {
+				if strings.HasPrefix(l[k:], "(forall ") || strings.HasPrefix(l[k:], "(exists ") {
+					depth, e := 0, k
+					for ; e < len(l); e++ {
+						if l[e] == '(' {
+							depth++
+						} else if l[e] == ')' {
+							depth--
+							if depth == 0 {
+								break
+							}
+						}
+					}
+					if e >= len(l) {
+						return "" // unbalanced (multi-line term): give up
+					}
+					sub := l[k : e+1]
+					c, ok := consts[sub]
+					if !ok {
+						c = fmt.Sprintf("qfb!%d", len(consts))
+						consts[sub] = c
+						order = append(order, c)
+					}
+					b.WriteString(c)
+					k = e + 1
+					replaced = true
+					continue
+				}
+				b.WriteByte(l[k])
+				k++
+			}
+			l = b.String()
+			if l == "(assert "+consts[strings.TrimSuffix(strings.TrimPrefix(l, "(assert "), ")")]+")" {
+				continue // a bare quantified axiom: nothing left
+			}
+		} else if strings.Contains(l, "(forall ") || strings.Contains(l, "(exists ") {
+			if strings.HasPrefix(l, "(define-fun") {
+				return "" // quantifier inside a definition: not handled
+			}
+		}
 		out = append(out, l)
 	}
-	if !dropped {
+	if !replaced {
 		return ""
 	}
-	// the negated goal and reach are the last two asserts; if the goal was quantified it was dropped: give up
 	body := strings.Join(out, "\n")
-	if !strings.Contains(body, "(assert (not ") {
-		return ""
-	}
 	seen := map[string]bool{}
 	var extra []string
+	for _, c := range order {
+		extra = append(extra, "(declare-const "+c+" Bool)")
+	}
 	for _, m := range slenTerm.FindAllStringSubmatch(body, -1) {
-		if !seen[m[1]] {
+		if !seen[m[1]] && !strings.Contains(m[1], "q.") {
 			seen[m[1]] = true
 			extra = append(extra, "(assert (>= (slen "+m[1]+") 0))")
 		}
 	}
-	k := strings.LastIndex(body, "(check-sat)")
+	// declarations must precede their use: put them before the first assert
+	k := strings.Index(body, "\n(assert")
 	if k < 0 {
 		return ""
 	}
-	return body[:k] + strings.Join(extra, "\n") + "\n" + body[k:]
+	var decls, facts []string
+	for _, x := range extra {
+		if strings.HasPrefix(x, "(declare-const") {
+			decls = append(decls, x)
+		} else {
+			facts = append(facts, x)
+		}
+	}
+	body = body[:k] + "\n" + strings.Join(decls, "\n") + body[k:]
+	k = strings.LastIndex(body, "(check-sat)")
+	if k < 0 {
+		return ""
+	}
+	return body[:k] + strings.Join(facts, "\n") + "\n" + body[k:]
 }
